@@ -6,7 +6,12 @@ cd /repo || exit 2
 if ! git diff --quiet; then echo "/repo is dirty"; exit 2; fi
 git apply "$patch" || { echo "patch does not apply"; exit 2; }
 cd /verif
+# the evidence / replay files of the unchanged tree are put back afterwards (a seeded run must not end up in a commit)
+save=$(mktemp -d /tmp/seedtest-save.XXXXXX)
+cp -a evidence/$prop.json "$save/" 2>/dev/null
 timeout 1800 /venv/bin/python harness/vcheck.py "$prop" --tier "$tier" 2>&1 | cut -c1-500 | tail -6
 rc=${PIPESTATUS[0]}
 git -C /repo checkout -- .
+cp -a "$save/$prop.json" evidence/ 2>/dev/null; rm -rf "$save"
+/venv/bin/python harness/extract.py >/dev/null 2>&1      # the generated tables follow the tree again
 echo "rc=$rc"
